@@ -708,7 +708,7 @@ impl Property for C03 {
         "one case = 1-3 generated projects (shared resources, identical command text and identical relative paths in different project directories, X.output across projects) and a history of 2-5 invocations over an untouched tree (different requested sets and spellings; the only edits are touch-only, content identical). Oracle: a target that declares inputs, has a definite model record and whose declared resources are content-equal to that record must not have its script started; a target without inputs must never be skipped. distinct_nontrivial = distinct order hashes among invocations in which a target with a model record was evaluated"
     }
     fn generate(&self, rng: &mut Rng, _case: u64) -> Scenario {
-        gen_history(rng, &HistOpts { io: IoOpts { multi_project_pct: 60, max_targets: 6, cmd_pct: 35 }, max_invocations: 4, edit_pct: 40, touch_only: true, vary_entry: false, clean_pct: 0, fail_pct: 18, corrupt_pct: 0, io_fault_pct: 0 })
+        gen_history(rng, &HistOpts { io: IoOpts { multi_project_pct: 60, max_targets: 6, cmd_pct: 35, cmd_output_pct: 0 }, max_invocations: 4, edit_pct: 40, touch_only: true, vary_entry: false, clean_pct: 0, fail_pct: 18, corrupt_pct: 0, io_fault_pct: 0 })
     }
     fn evaluate(&self, sc: &Scenario, root: &Path, stats: &mut Stats) -> Option<Violation> {
         eval_history(sc, root, stats, Some(Which::Complete), any_target, None, nontrivial_decision)
@@ -732,10 +732,22 @@ impl Property for C13 {
     fn rule(&self) -> &'static str {
         "one case = producer/consumer layout over 1-3 projects (chains, several producers, producers in imported projects at other directories, identical relative paths and command texts in different projects) + history of invocations and edits biased to the producers' outputs and sources. Oracle (both directions, consumers of X.output only): the consumer's decision equals the model's decision with the producer's output resources - files with their extension filter, commands evaluated in the producer's directory - appended to its inputs. Producer-first ordering is C01's oracle. distinct_nontrivial = distinct order hashes among invocations where a consumer with a model record was evaluated"
     }
-    fn generate(&self, rng: &mut Rng, _case: u64) -> Scenario {
-        gen_history(rng, &HistOpts { io: IoOpts { multi_project_pct: 70, max_targets: 6, cmd_pct: 35 }, max_invocations: 4, edit_pct: 70, touch_only: false, vary_entry: false, clean_pct: 0, fail_pct: 0, corrupt_pct: 0, io_fault_pct: 0 })
+    fn generate(&self, rng: &mut Rng, case_no: u64) -> Scenario {
+        if case_no % 10 == 3 {
+            return gen_shared_command_layout(rng);
+        }
+        if rng.chance(20) {
+            // the same relation in watch mode: a producer rebuilt (also while its consumer is
+            // building) must end with the consumer built from the producer's final outputs
+            return super::watch::gen_watch(rng, &super::watch::WatchOpts { inside_build_pct: 60, io_only: true, ..Default::default() });
+        }
+        gen_history(rng, &HistOpts { io: IoOpts { multi_project_pct: 70, max_targets: 6, cmd_pct: 35, cmd_output_pct: 35 }, max_invocations: 4, edit_pct: 70, touch_only: false, vary_entry: false, clean_pct: 0, fail_pct: 0, corrupt_pct: 0, io_fault_pct: 0 })
     }
     fn evaluate(&self, sc: &Scenario, root: &Path, stats: &mut Stats) -> Option<Violation> {
+        if sc.label.starts_with("watch-") {
+            let s = super::watch::run_session(sc, root, stats, |c| c.clo.iter().any(|t| c.sc.target(t.0, &t.1).map(|x| x.deps.iter().any(|d| d.via_output)).unwrap_or(false)))?;
+            return super::watch::oracle_c06_filtered(sc, &s, consumer_only).map(|v| Violation { oracle: format!("watch:{}", v.oracle), witness: v.witness, message: v.message });
+        }
         eval_history(sc, root, stats, Some(Which::Both), consumer_only, None, |sc, c, had| had && c.clo.iter().any(|t| consumer_only(sc, t)))
     }
 }
@@ -758,7 +770,7 @@ impl Property for C18 {
         "one case = 2-3 projects + a history of 2-5 invocations with different requested targets, different entry projects (-p the root or an imported project's own directory), --clean T for some targets, failing other targets, interleaved with edits. Oracle (both directions): each target's decision equals the model's decision computed from that target's own declared resources and its own last successful completion only. distinct_nontrivial = distinct order hashes among invocations where a target with a model record was evaluated"
     }
     fn generate(&self, rng: &mut Rng, _case: u64) -> Scenario {
-        gen_history(rng, &HistOpts { io: IoOpts { multi_project_pct: 85, max_targets: 6, cmd_pct: 20 }, max_invocations: 5, edit_pct: 50, touch_only: false, vary_entry: true, clean_pct: 20, fail_pct: 20, corrupt_pct: 0, io_fault_pct: 0 })
+        gen_history(rng, &HistOpts { io: IoOpts { multi_project_pct: 85, max_targets: 6, cmd_pct: 20, cmd_output_pct: 0 }, max_invocations: 5, edit_pct: 50, touch_only: false, vary_entry: true, clean_pct: 20, fail_pct: 20, corrupt_pct: 0, io_fault_pct: 0 })
     }
     fn evaluate(&self, sc: &Scenario, root: &Path, stats: &mut Stats) -> Option<Violation> {
         eval_history(sc, root, stats, Some(Which::Both), any_target, None, nontrivial_decision)
@@ -1002,7 +1014,7 @@ impl Property for C12 {
         vec!["a declared output path that is itself a symbolic link is not generated (DESIGN.md §7 C12 workload boundary)"]
     }
     fn generate(&self, rng: &mut Rng, _case: u64) -> Scenario {
-        let mut sc = gen_history(rng, &HistOpts { io: IoOpts { multi_project_pct: 50, max_targets: 5, cmd_pct: 10 }, max_invocations: 4, edit_pct: 30, touch_only: false, vary_entry: false, clean_pct: 70, fail_pct: 0, corrupt_pct: 0, io_fault_pct: 0 });
+        let mut sc = gen_history(rng, &HistOpts { io: IoOpts { multi_project_pct: 50, max_targets: 5, cmd_pct: 10, cmd_output_pct: 0 }, max_invocations: 4, edit_pct: 30, touch_only: false, vary_entry: false, clean_pct: 70, fail_pct: 0, corrupt_pct: 0, io_fault_pct: 0 });
         // decorate output locations
         let mut extra = vec![];
         for p in &sc.projects {
@@ -1164,4 +1176,59 @@ fn crash_inside_clean(sc: &Scenario, root: &Path, stats: &mut Stats) -> Option<V
     }
     let _ = std::fs::remove_dir_all(&base);
     verdict
+}
+
+/// Two or three projects whose producers all declare the SAME command line as an output, and a
+/// root consumer inheriting all of them (plus, sometimes, declaring it itself): the per-directory
+/// values are changed one at a time between invocations.
+pub fn gen_shared_command_layout(rng: &mut Rng) -> Scenario {
+    let np = rng.range(2, 3);
+    let mut projects = vec![Project { dir: "p0".into(), name: if rng.chance(50) { Some("root".into()) } else { None }, imports: vec![], targets: vec![], raw_yaml: None }];
+    let mut vars = BTreeMap::new();
+    let mut files = vec![];
+    let names = ["liba", "libb"];
+    let mut consumer = Target::new("report", Kind::Build);
+    for i in 1..=np - 1 + 1 {
+        if i > 2 {
+            break;
+        }
+        let dir = format!("p{}", i);
+        let mut gen_t = Target::new("gen", Kind::Build);
+        gen_t.input.push(Res::Paths { paths: vec!["src.txt".into()], extensions: None });
+        gen_t.output.push(Res::Cmd { key: "ver".into() });
+        if rng.chance(60) {
+            gen_t.output.push(Res::Paths { paths: vec!["out/gen.out".into()], extensions: None });
+            gen_t.writes.push("out/gen.out".into());
+        }
+        files.push(FileSpec { path: format!("{}/src.txt", dir), kind: FileKind::File(format!("{} source\n", dir)) });
+        files.push(FileSpec { path: format!("{}/out", dir), kind: FileKind::Dir });
+        vars.insert(format!("{}__ver", dir), format!("{} version 1\n", dir));
+        projects.push(Project { dir, name: Some(names[i - 1].into()), imports: vec![], targets: vec![gen_t], raw_yaml: None });
+        projects[0].imports.push((names[i - 1].into(), i));
+        consumer.deps.push(DepRef { project: i, target: "gen".into(), via_dep: rng.chance(30), via_output: true, qualified: true });
+    }
+    if rng.chance(50) {
+        consumer.input.push(Res::Paths { paths: vec!["own.txt".into()], extensions: None });
+        files.push(FileSpec { path: "p0/own.txt".into(), kind: FileKind::File("own\n".into()) });
+    }
+    if rng.chance(30) {
+        consumer.input.push(Res::Cmd { key: "ver".into() });
+        vars.insert("p0__ver".into(), "p0 version 1\n".into());
+    }
+    consumer.output.push(Res::Paths { paths: vec!["out/report.out".into()], extensions: None });
+    consumer.writes.push("out/report.out".into());
+    files.push(FileSpec { path: "p0/out".into(), kind: FileKind::Dir });
+    projects[0].targets.push(consumer);
+    let mut sc = Scenario { focus: None, label: "io-shared-command".into(), projects, files, vars, steps: vec![] };
+    let ninv = rng.range(2, 4);
+    for k in 0..ninv {
+        let inv = plain_invocation(rng, &sc, 0, vec!["report".into()]);
+        sc.steps.push(Step::Invoke(inv));
+        if k + 1 < ninv && rng.chance(75) {
+            let keys: Vec<String> = sc.vars.keys().cloned().collect();
+            let key = rng.pick(&keys).clone();
+            sc.steps.push(Step::Fs(FsOp::SetVar { key: key.clone(), value: format!("{} version {}\n", key, k + 2) }));
+        }
+    }
+    sc
 }
